@@ -28,12 +28,13 @@ def one(sd, jobs):
             if v.get("fired") and k not in props:
                 props.append(k)
         fired = []
-        for p in props[:1]:
+        for p in props:  # the owning check first, then every other check that fired when the seed was stored
             rr = subprocess.run([os.path.join(VERIF, "check"), p, "--tier", "quick", "--repo", tmp, "--no-evidence", "--jobs", str(jobs)],
                                 capture_output=True, text=True, cwd=VERIF, timeout=3 * 3600)
             new = sorted(st._keys(rr.stdout) - st.baseline(p, "quick", jobs))
             if rr.returncode == 1 and new:
                 fired.append((p, new[:2]))
+                break
         return sd, ("caught" if fired else "MISSED"), fired
     finally:
         shutil.rmtree(tmp, ignore_errors=True)
